@@ -163,6 +163,7 @@ impl System {
         replication_factor: Option<u8>,
     ) -> Result<&Topic, IggyError> {
         self.ensure_authenticated(session)?;
+        let numeric_topic_id;
         {
             let topic = self
                 .find_topic(session, stream_id, topic_id)
@@ -171,6 +172,7 @@ impl System {
                         "{COMPONENT} (error: {error}) - failed to find topic with ID: {topic_id}"
                     )
                 })?;
+            numeric_topic_id = topic.topic_id;
             self.permissioner.update_topic(
                 session.get_user_id(),
                 topic.stream_id,
@@ -208,7 +210,8 @@ impl System {
             .with_error_context(|error| {
                 format!("{COMPONENT} (error: {error}) - failed to get stream with ID: {stream_id}")
             })?
-            .get_topic(topic_id)
+            // The topic may have been addressed by its old name, which no longer resolves after a rename.
+            .get_topic(&Identifier::numeric(numeric_topic_id)?)
             .with_error_context(|error| {
                 format!("{COMPONENT} (error: {error}) - failed to get topic with ID: {topic_id} in stream with ID: {stream_id}")
             })
